@@ -10,6 +10,8 @@ dst, src in [0,16), off in [-2^15, 2^15), imm in [-2^31, 2^31), and the narrowin
 on them; (R13.d) lddw: slot 0 carries bits 0..32 and slot 1 (opcode 0) bits 32..64 of the literal;
 (R13.f) assemble returns Err before producing any byte.  Byte layout of each slot: C17.
 Not decided: acceptance of oversized numeric literals (value semantics of the parse)."""
+import re
+
 import asmmodel
 import symex
 import terms as T
@@ -206,58 +208,78 @@ def run(rep, tier):
     # R13.g how numeric text becomes a value (sign, radix, combination), register numbers
     rg = rep.rule("R13.g", "numeric literals: '-' negates and '+'/none keeps, `0x` digits are read in radix 16, other digits as decimal i64, value = sign * magnitude (wrapping); register numbers are decimal", floor=6)
     evg = symex.Evaluator(F)
+
     def clo(path, *args):
         try:
             return evg.run_fn(path, list(args)) or []
-        except Exception as e:      # fail closed below
+        except Exception:      # fail closed below
             return []
+    from dispatch import thir_reach
+
+    def family(root):
+        """root, the asm_parser functions it reaches, and all their closures (parsers may be split into helpers)"""
+        fam = {q for q in thir_reach(F, [root]) if q.startswith("asm_parser::")} | {root}
+        return sorted(q for q in F.fns if F.fns[q].get("thir") and any(q == r or q.startswith(r + "::{closure") for r in fam))
+
+    def calls_in(paths):
+        return [n for q in paths for n in walk(F.fns[q]["thir"]["body"]) if n.get("k") == "call"]
+    fam_int, fam_reg = family("asm_parser::integer"), family("asm_parser::register")
+
+    def param_tys(q):
+        return [x.get("ty") for x in F.fns[q]["thir"]["params"]]
+    # the parts are found by what they are (parameter types), not by closure numbering
+    sign_c = [q for q in fam_int if "{closure" in q and any(re.search(r"option::Option<char>$", t or "") for t in param_tys(q))]
     sign = {}
     for nm, arg in (("-", symex.some(T.K(32, ord("-")))), ("+", symex.some(T.K(32, ord("+")))), ("none", symex.NONE)):
-        outs = [v for v, st in clo("asm_parser::integer::{closure#0}", arg) if st.feasible]
+        outs = [v for v, st in (clo(sign_c[0], arg) if len(sign_c) == 1 else []) if st.feasible]
         sign[nm] = T.sval(outs[0]) if len(outs) == 1 and T.is_k(outs[0]) else None
-    rep.ob(rg, "sign", sign == {"-": -1, "+": 1, "none": 1}, "sign closure of asm_parser::integer", expected={"-": -1, "+": 1, "none": 1}, found=sign)
-    def calls_of(path):
-        fn = F.fns.get(path)
-        return [n for n in walk(fn["thir"]["body"]) if n.get("k") == "call"] if fn and fn.get("thir") else []
-    radix = [strip(n["args"][1]).get("v") for n in calls_of("asm_parser::integer::{closure#1}") if (callee_path(n) or "").endswith("<impl u64>::from_str_radix")]
+    rep.ob(rg, "sign", sign == {"-": -1, "+": 1, "none": 1}, "sign closure of the integer parser", expected={"-": -1, "+": 1, "none": 1}, found=sign)
+    radix = [strip(n["args"][1]).get("v") for n in calls_in(fam_int) if (callee_path(n) or "").endswith("<impl u64>::from_str_radix")]
     rep.ob(rg, "hex-radix", radix == [16], "radix of the `0x` branch", expected=[16], found=radix)
-    cast = clo("asm_parser::integer::{closure#1}::{closure#0}", T.V("m", 64))
+    cast_c = [q for q in fam_int if "{closure" in q and param_tys(q)[-1:] == ["u64"]]
+    cast = clo(cast_c[0], T.V("m", 64)) if len(cast_c) == 1 else []
     rep.ob(rg, "hex-cast", len(cast) == 1 and cast[0][0] == T.V("m", 64), "the 64-bit magnitude is reinterpreted as i64 (so 0x8000000000000000.. denote negative values, needed for lddw)",
            expected="m as i64", found=[_sh(v) for v, _ in cast])
-    def parse_ty(path, depth=0, seen=None):
-        """str::parse calls of the closure, following the local functions / closures it calls (a helper may do the parsing)"""
-        out = []
-        seen = seen if seen is not None else set()
-        if path in seen or depth > 3:
-            return out
-        seen.add(path)
-        for n in calls_of(path):
-            cp = callee_path(n) or ""
-            if cp.endswith("<impl str>::parse"):
-                out.append(((n.get("callee") or {}).get("generics") or n.get("generics") or [n.get("ty")])[0])
-            elif cp in F.fns and cp.startswith("asm_parser::"):
-                out.extend(parse_ty(cp, depth + 1, seen))
-        fnp = F.fns.get(path)
-        if fnp and fnp.get("thir"):
-            for x in walk(fnp["thir"]["body"]):
-                if x.get("k") == "closure" and x.get("path"):
-                    out.extend(parse_ty(x["path"], depth + 1, seen))
-        return out
-    dec = parse_ty("asm_parser::integer::{closure#2}")
+
+    def parse_ty(paths):
+        return [((n.get("callee") or {}).get("generics") or n.get("generics") or [n.get("ty")])[0] for n in calls_in(paths) if (callee_path(n) or "").endswith("<impl str>::parse")]
+    dec = parse_ty(fam_int)
     rep.ob(rg, "decimal", len(dec) == 1 and "i64" in str(dec[0]), "decimal branch parses an i64 with str::parse (radix 10)", expected="str::parse::<i64>", found=dec)
     a, b = T.V("s", 64), T.V("x", 64)
-    comb = clo("asm_parser::integer::{closure#3}", ("struct", "tuple", "tuple", (("0", a), ("1", b))))
+    comb_c = [q for q in fam_int if "{closure" in q and param_tys(q)[-1:] == ["(i64, i64)"]]
+    comb = clo(comb_c[0], ("struct", "tuple", "tuple", (("0", a), ("1", b)))) if len(comb_c) == 1 else []
     rep.ob(rg, "combine", len(comb) == 1 and comb[0][0] == T.op("mul", 64, a, b), "value = sign.wrapping_mul(magnitude)", expected="s * x", found=[_sh(v) for v, _ in comb])
-    regp = parse_ty("asm_parser::register::{closure#0}")
+    regp = parse_ty(fam_reg)
     rep.ob(rg, "register", len(regp) == 1 and "i64" in str(regp[0]), "register number parses as a decimal i64", expected="str::parse::<i64>", found=regp)
     lits = {}
-    for fnm in ("asm_parser::integer", "asm_parser::register"):
-        fn = F.fns.get(fnm)
-        lits[fnm] = sorted({n["v"] for n in walk(fn["thir"]["body"]) if n.get("k") == "lit" and isinstance(n.get("v"), str)}) if fn else None
-        lits[fnm + ":comb"] = sorted({(callee_path(n) or "").rsplit("::", 1)[-1] for n in calls_of(fnm)} & {"hex_digit", "digit", "string", "one_of", "char", "many1", "optional", "attempt"})
+    for fnm, fam in (("asm_parser::integer", fam_int), ("asm_parser::register", fam_reg)):
+        # the literals handed to token parsers (char('r'), string("0x"), one_of("-+".chars()))
+        lits[fnm] = sorted({x["v"] for c in calls_in(fam) if re.search(r"::(char|string|one_of|token|tokens)$", callee_path(c) or "")
+                            for x in walk(c["args"]) if x.get("k") == "lit" and isinstance(x.get("v"), str)})
+        lits[fnm + ":comb"] = sorted({(callee_path(n) or "").rsplit("::", 1)[-1] for n in calls_in(fam)} & {"hex_digit", "digit", "string", "one_of", "char", "many1", "optional", "attempt"})
     rep.ob(rg, "grammar", lits.get("asm_parser::integer") == ["-+", "0x"] and {"hex_digit", "digit", "string", "one_of"} <= set(lits["asm_parser::integer:comb"])
            and lits.get("asm_parser::register") == ["r"] and {"char", "digit"} <= set(lits["asm_parser::register:comb"]),
            "token literals and digit classes", expected={"integer": ["-+", "0x", "hex_digit", "digit"], "register": ["r", "digit"]}, found=lits)
+
+    # R13.w white space between tokens: combine's `spaces()` (char::is_whitespace: blanks, tabs, every line-end
+    # convention, form feeds); a hand-written class of blanks narrows the documented syntax
+    rw_ = rep.rule("R13.w", "inter-token white space is recognised by combine's spaces() only: no local parser named spaces/space, no literal made of white-space characters in the grammar", floor=2)
+    sp_calls, ws_lits = {}, []
+    for pth, fn in F.fns.items():
+        if not pth.startswith("asm_parser::") or not fn.get("thir"):
+            continue
+        for n in walk(fn["thir"]["body"]):
+            if n.get("k") == "call" and re.search(r"::(spaces|space|skip_spaces|whitespace)$", callee_path(n) or ""):
+                sp_calls.setdefault(callee_path(n), set()).add(pth.split("::{")[0])
+            if n.get("k") == "lit" and isinstance(n.get("v"), str) and n["v"] and not n["v"].strip() and n.get("lk") in ("str", "char", None):
+                ws_lits.append((pth, repr(n["v"])))
+    local_ws = sorted(c for c in sp_calls if not c.startswith("combine::"))
+    from dispatch import thir_reach
+    reach_parse = thir_reach(F, ["asm_parser::parse"])
+    uses = sorted(f for c, fs in sp_calls.items() if c == "combine::parser::char::spaces" for f in fs)
+    rep.ob(rw_, "spaces", not local_ws and bool(uses) and any(u in reach_parse or u == "asm_parser::parse" for u in uses),
+           "parsers used for white space", expected="combine::parser::char::spaces, reachable from asm_parser::parse", found={"combine spaces used in": uses, "local": local_ws})
+    rep.ob(rw_, "literals", not ws_lits, "white-space-only literals in the grammar", expected="none", found=ws_lits[:4] or "none")
 
     # R13.h the operand grammar must give input back when a register turns out to be a mnemonic
     rh = rep.rule("R13.h", "an instruction without operands can be followed by a mnemonic that starts like a register: the register alternative of `operand` must backtrack (combine commits once input is consumed)", floor=1)
@@ -300,7 +322,7 @@ def run(rep, tier):
     outs = evo.run_fn("assembler::assemble", [("obj", "SRC", "&str")]) or []
     errs = [(v, s) for v, s in outs if isinstance(v, tuple) and v[0] == "struct" and v[2] == "Err"]
     bad = [s for v, s in errs if any(e[0] == "call" and e[1].endswith("extend_from_slice") for e in s.effects)]
-    rep.ob(rf, "assemble", len(errs) >= 2 and not bad, "Err paths of assemble", expected="return before any byte is appended", found="%d Err paths, %d with appended bytes" % (len(errs), len(bad)))
+    rep.ob(rf, "assemble", len(errs) >= 1 and not bad, "Err paths of assemble", expected="return before any byte is appended", found="%d Err paths, %d with appended bytes" % (len(errs), len(bad)))
     # the bytes the assembler emits are Insn::to_array of the encoded instruction: the encoder lanes (C17/R17.a)
     import props.c17 as c17
     c17.run(rep, tier, parts=("enc",))
